@@ -202,4 +202,50 @@ theorem run_apps_other (hw : Bool) (a : Nat) (prog : List Instr) (fuel : Nat) (s
             exact this
 
 
+/-! ### the driver's guarded run is `run` -/
+
+/-- `run` with one more unit of fuel = one instruction, then the rest -/
+theorem run_succ (hw : Bool) (a : Nat) (prog : List Instr) (n : Nat) (s : State) (pc : Int) :
+    run hw a prog (n + 1) s pc =
+      (match (run hw a prog 1 s pc).out with
+       | .outOfFuel => { run hw a prog n (run hw a prog 1 s pc).s (run hw a prog 1 s pc).pc with
+                         visited := (run hw a prog 1 s pc).visited ++
+                           (run hw a prog n (run hw a prog 1 s pc).s (run hw a prog 1 s pc).pc).visited }
+       | _ => run hw a prog 1 s pc) := by
+  by_cases hge : pc ≥ prog.length
+  · simp [run, hge]
+  · rcases hk : pyIdx prog.length pc with _ | k
+    · simp [run, hge, hk]
+    · rcases hi : prog[k]? with _ | i
+      · simp [run, hge, hk, hi]
+      · rcases hs : step hw a i s pc with ⟨s', pc'⟩ | ⟨s', f⟩
+        · by_cases hp : pc' ≥ prog.length
+          · cases n <;> simp [run, hge, hk, hi, hs, hp]
+          · simp [run, hge, hk, hi, hs, hp]
+        · simp [run, hge, hk, hi, hs]
+
+theorem runG_eq_run (hw : Bool) (a : Nat) (prog : List Instr) (n : Nat) (s : State) (pc : Int)
+    (r : RunOut) (h : runG hw a prog n s pc = some r) : r = run hw a prog n s pc := by
+  induction n generalizing s pc r with
+  | zero => simp [runG] at h; exact h.symm
+  | succ n ih =>
+    unfold runG at h
+    split at h
+    · cases h
+    · rw [run_succ]
+      simp only [] at h
+      split at h
+      · rename_i ho
+        simp only [ho]
+        rcases hg : runG hw a prog n (run hw a prog 1 s pc).s (run hw a prog 1 s pc).pc with _ | r'
+        · simp [hg] at h
+        · simp only [hg, Option.map_some, Option.some.injEq] at h
+          have := ih _ _ r' hg
+          rw [← this, ← h]
+      · rename_i ho
+        cases h
+        split
+        · rename_i ho'; exact absurd ho' (by intro e; exact ho e)
+        · rfl
+
 end NQ.Exec
